@@ -376,6 +376,32 @@ fn one_case(module: &Module<BE>, op: &str, n: usize, k_in: i64, rng: &mut Rng, r
                 return;
             }
         }
+        // merge of parts with unequal limb counts: a limb a part does not have counts as zero
+        let uparts: Vec<VBuf> = (0..ratio).map(|_| { let ps = rng.usize_in(1, 5); gen_small(rng, m, 1, ps, ps, 63) }).collect();
+        let mut merged = gen_small(rng, n, rc, rs, rcap, 64);
+        let r = guarded(|| {
+            let views: Vec<VecZnx<&[u8]>> = uparts.iter().map(|p| p.rview()).collect();
+            module.vec_znx_merge_rings(&mut merged.view(), rcol, &views, 0, scratch.scratch());
+        });
+        rep.case("merge_unequal", &format!("{key}|{:?}", uparts.iter().map(|p| p.size).collect::<Vec<_>>()), true);
+        if let Err(p) = r {
+            rep.violate("merge_unequal", desc, format!("panic: {p}"));
+            return;
+        }
+        for j in 0..rs {
+            let mut want = vec![0i64; n];
+            for (t, p) in uparts.iter().enumerate() {
+                if j < p.size {
+                    for i in 0..m {
+                        want[i * ratio + t] = p.poly(0, j)[i];
+                    }
+                }
+            }
+            if merged.poly(rcol, j) != &want[..] {
+                rep.violate("merge_unequal", desc, format!("merge of parts with sizes {:?}: limb {j} is not the interleaving of the parts' limbs", uparts.iter().map(|p| p.size).collect::<Vec<_>>()));
+                return;
+            }
+        }
         return;
     }
 
